@@ -62,6 +62,7 @@ type sSymElem struct {               // array element selected by a symbolic ind
 type sBytes struct { // []byte parameter holding a scalar
 	name string
 	n    int // -1: unknown length
+	off  int // the slice starts at this byte of the parameter (scalar[1:])
 }
 type sTab struct { // reference into a package-level table
 	name string
